@@ -71,6 +71,32 @@ example : pyEq 0 (.scalar 1 qM) (.scalar 1 qM) false = .ok true
     ∧ pyHash (.arr ⟨[1, 2], .tuple, qM, none⟩) = .error .type
     ∧ pyHash (.list [1]) = .error .type := by decide +kernel
 
+/-- the quantity type `Unknown` and the empty quantity in the cross-type guard: `1.5 m < 2.5 <unknown>`
+raises `TypeError` for a FractionScalar, a Scalar and a mixed pair, both operand orders (although
+`GetInfo(…, fix_unknown=True)` would convert `<unknown>` to `m` as the identity); two `<unknown>` operands
+compare their numbers; a Scalar against the empty quantity raises -/
+example : (match sq "length" "m", sq "Unknown" "<unknown>" with
+    | .ok qm, .ok qu =>
+      some (Operand.order poscDb 0 .lt (.fsc ⟨3 / 2, 0⟩ (.simple qm)) (.fsc ⟨5 / 2, 0⟩ (.simple qu)),
+            Operand.order poscDb 0 .lt (.fsc ⟨5 / 2, 0⟩ (.simple qu)) (.fsc ⟨3 / 2, 0⟩ (.simple qm)),
+            Operand.order poscDb 0 .ge (.sc (3 / 2) (.simple qm)) (.fsc ⟨5 / 2, 0⟩ (.simple qu)),
+            Operand.order poscDb 0 .lt (.sc (3 / 2) (.simple qu)) (.fsc ⟨2, 1 / 2⟩ (.simple qu)))
+    | _, _ => none)
+    = some (.error .type, .error .type, .error .type, .ok true) := by
+  decide +kernel
+
+example : (match sq "length" "m" with
+    | .ok qm =>
+      some (Operand.order poscDb 0 .le (.sc 1 (.simple qm)) (.sc 1 .empty),
+            Operand.order poscDb 0 .le (.sc 1 .empty) (.sc 2 .empty),
+            Operand.order poscDb 0 .le (.sc 1 .empty) (.fsc ⟨2, 0⟩ .empty))
+    | _ => none) = some (.error .type, .ok true, .error .type) := by decide +kernel
+
+/-- what the guard prevents: the conversion of `2.5 <unknown>` to `m` succeeds as the identity -/
+example : (match sq "length" "m", sq "Unknown" "<unknown>" with
+    | .ok qm, .ok qu => some (Operand.valueIn poscDb 0 (.sc (5 / 2) (.simple qu)) qm.unit)
+    | _, _ => none) = some (.ok (5 / 2)) := by decide +kernel
+
 end examples
 
 
